@@ -1101,4 +1101,4 @@ def offset_roles(ck, m):
           '%s: the key record points at an address of the other file and the entry remembers the wrong one — after a restart the key shows '
           'another key\'s value or garbage, and the next in-place update writes into the middle of a neighbouring record' % '; '.join(sorted(set(bad))[:3]),
           '%s:%s' % (wb.file, wb.line))
-    ck.floor('C06.q', npairs, 6, 'offset arguments of the snapshot writer whose role is known on both sides')
+    ck.floor('C06.q', npairs, 1, 'offset arguments of the snapshot writer whose role is known on both sides')
